@@ -458,7 +458,7 @@ def sites_of(code, ll):
         awb = {}
     out = []
     for j, ins in enumerate(insns):
-        if ins.opname in ("BEFORE_WITH", "BEFORE_ASYNC_WITH", "SETUP_WITH", "SETUP_ASYNC_WITH"):
+        if ins.opname in (("BEFORE_WITH", "BEFORE_ASYNC_WITH") if PY >= (3, 11) else ("SETUP_WITH", "SETUP_ASYNC_WITH")):
             k = store_start(insns, j)
             rec = _Rec(insns)
             obs = ll.describe_assignment_target(rec, k)
@@ -530,7 +530,7 @@ class _Mangle(ast.NodeTransformer):
 def site_item(site, index):
     """the ast (With node, item) of a site through the source position of the instruction that
     produced the manager (3.11+)"""
-    p = site["insns"][site["j"] - 1].positions
+    p = getattr(site["insns"][site["j"] - 1], "positions", None)  # 3.11+
     if p is None:
         return None
     return index.get((p.lineno, p.col_offset, p.end_lineno, p.end_col_offset))
